@@ -228,6 +228,12 @@ def extract(repo):
         raise ValueError("superInvAttrIter::next: shape not recognised")
     ssi = _strip_comments(rd("include/clstepcore/SubSuperIterators.h"))
     nb = _body(ssi, r"const\s+EntityDescriptor\s*\*\s*next\s*\(\s*\)\s*\{")
+    # addLinkedList queues EVERY entry of the list (the model's `levelsG`: l ++ … (l.flatMap next)); a loop that can end before the
+    # end of the list (a condition beyond `a != 0`, a break/return in the body) or that skips entries is another walk
+    all_ = _body(ssi, r"void\s+addLinkedList\s*\([^)]*\)\s*\{")
+    mw = re.search(r"while\s*\(([^{]*)\)\s*\{", all_)
+    if not mw or re.sub(r"\s+", "", mw.group(1)) != "a!=0" or re.search(r"\b(break|return|continue|if)\b", all_[mw.end():]):
+        raise ValueError("recursiveEntDescripIterator::addLinkedList: `while( a != 0 )` over the whole list, every entry queued, not recognised")
     if not re.search(r"q\.pop_front\(\s*\);\s*addLinkedList\(\s*qp\s*\);\s*return\s+qp\.ed", nb):
         raise ValueError("recursiveEntDescripIterator::next: FIFO pop / push-children / return-popped shape not recognised")
 
